@@ -46,7 +46,12 @@ func (o *c35) step(line string) string {
 			pre = false // stored as accepted only: the chunk was already included before (C37)
 		}
 	}
-	script := f[2:]
+	var script []string
+	for _, tok := range f[2:] {
+		if tok != "D1" && tok != "D2" { // unreachable validators: routing, not answers
+			script = append(script, tok)
+		}
+	}
 	served := true
 	beyond := 0 // served chunks that are valid at the block but not for the node's chunk verifier
 	pos := 0
@@ -65,7 +70,8 @@ func (o *c35) step(line string) string {
 			}
 			if err == nil && j == want && o.validAt(vb, j) {
 				found = true
-				if s.verifier.Verify(s.u.get(j).chunk) != nil {
+				// (arithmetic on the verifier's minimum, not its verdict: the verdict is under test)
+				if e := s.u.get(j).chunk.Expiry; e < s.verifier.min || e > s.verifier.min+s.window {
 					beyond++
 				}
 			}
@@ -148,6 +154,14 @@ func TestVerifC35(t *testing.T) {
 		// later blocks (minimum slot 9 > 3); it still holds the chunk and its real handler serves it
 		vCfg(12, 1000000), "paddlocal 1", "paddlocal 4", "psetmin 2 1", "psetmin 9", "mk 1 0 2 1 1", "accept 1 P", "abs",
 		vCfg(12, 1000000), "paddlocal 2", "mk 1 0 2 1 2 1", "accept 1 P P 1", "abs", "paddlocal 1", "accept 1 P P",
+		// certificate signed by the producer only (quorum below 1/1); the producer is unreachable, another
+		// validator relays the chunk: Accept must get it from whoever serves it
+		vCfg(12, 1000000), "mk 1 0 2 1 1q", "accept 1 D1 E 1", "abs",
+		vCfg(12, 1000000), "addlocal 2 n", "mk 1 0 2 1 7q 2 1q", "accept 1 D2 7 1", "abs",
+		// a chunk the node declined earlier (expiry beyond min+window at that time) has to be fetched
+		// after the node caught up: the earlier verdict must not stick
+		vCfg(5, 1000000), "vremote 4", "vremote 4", "setmin 5", "vremote 5", "mk 1 0 6 1 4", "accept 1 4", "abs",
+		vCfg(5, 1000000), "vremote 4", "setmin 5", "vremote 4", "abs",
 		// a certified chunk larger than InitialChunkSize travels through the real typed client
 		vCfg(12, 1000000), "mk 1 0 2 1 14 1", "accept 1 E 14 1", "abs",
 		vCfg(12, 1000000), "paddlocal 14", "psetmin 5 14", "psetmin 20", "mk 1 0 2 1 14", "accept 1 P", "abs",
@@ -171,7 +185,14 @@ func TestVerifC35(t *testing.T) {
 			limit = []int{282, 400, 637, 700, 1000, 1065}[rng.Intn(6)]
 		}
 		o.step(vCfg(w, limit))
+		// chunks offered while the node is still behind: many are declined as "future"
+		for k := rng.Intn(4); k > 0; k-- {
+			o.step(fmt.Sprintf("vremote %d", 1+rng.Intn(vValid)))
+		}
 		m := rng.Intn(5)
+		if rng.Chance(25) {
+			m = 3 + rng.Intn(10) // the node catches up
+		}
 		if m > 0 {
 			o.step(fmt.Sprintf("setmin %d", m))
 		}
@@ -230,6 +251,7 @@ func TestVerifC35(t *testing.T) {
 			k := 1 + rng.Intn(4)
 			var certs []string
 			var idx []int
+			var partial []int // producers of the certificates signed by the producer only
 			used := map[int]bool{}
 			for len(certs) < k {
 				i := 1 + rng.Intn(vValid)
@@ -244,6 +266,9 @@ func TestVerifC35(t *testing.T) {
 				tok := strconv.Itoa(i)
 				if rng.Chance(5) {
 					tok += "x" // Accept does not look at signatures
+				} else if rng.Chance(25) {
+					tok += "q" // signed by the producer only
+					partial = append(partial, v.sut.u.get(i).producer)
 				}
 				certs = append(certs, tok)
 			}
@@ -274,6 +299,12 @@ func TestVerifC35(t *testing.T) {
 				} else if rng.Chance(93) {
 					script = append(script, strconv.Itoa(i))
 				}
+			}
+			// unreachable validators (never both): requests to them fail and must be retried elsewhere
+			if len(partial) > 0 && rng.Chance(60) {
+				script = append([]string{fmt.Sprintf("D%d", partial[rng.Intn(len(partial))])}, script...)
+			} else if rng.Chance(10) {
+				script = append([]string{fmt.Sprintf("D%d", 1+rng.Intn(2))}, script...)
 			}
 			o.step(strings.TrimSpace(fmt.Sprintf("accept %d %s", b, strings.Join(script, " "))))
 			o.step("abs")
